@@ -377,9 +377,16 @@ func c07r5(c *Ctx, id string) {
 	check := func(in ssa.Instruction, what string) {
 		gClosed, gGen, gErr := false, false, false
 		for _, b := range blocksOf(in) {
-			gClosed = gClosed || guardedBy(b, false, func(v ssa.Value) bool { f, _ := flagRead(v); return f != nil && f.Name() == rmClosed })
-			gGen = gGen || guardedBy(b, false, func(v ssa.Value) bool { return w.Origin(v) == "(recv.activeGroupID != param(groupID))" }) ||
-				guardedBy(b, true, func(v ssa.Value) bool { return w.Origin(v) == "(recv.activeGroupID == param(groupID))" })
+			gClosed = gClosed || guardedByDeep(b, false, func(v ssa.Value) bool { f, _ := flagRead(v); return f != nil && f.Name() == rmClosed })
+			genNe := func(v ssa.Value) bool {
+				o := w.Origin(v)
+				return strings.HasPrefix(o, "(recv.activeGroupID != param(") && strings.HasSuffix(o, "))")
+			}
+			genEq := func(v ssa.Value) bool {
+				o := w.Origin(v)
+				return strings.HasPrefix(o, "(recv.activeGroupID == param(") && strings.HasSuffix(o, "))")
+			}
+			gGen = gGen || guardedByDeep(b, false, genNe) || guardedByDeep(b, true, genEq)
 			gErr = gErr || errGuard(b, true, func(v ssa.Value) bool { return v == ssa.Value(errP) })
 		}
 		c.CallSites++
